@@ -559,12 +559,23 @@ def take_value(toks, i):
     return t, i + 1
 
 
+QBAD = []               # handle queries that answered wrongly (filled by parse_log)
+
+
 def parse_log(t):
     """event tokens -> list of tuples"""
     evs, i = [], 0
     while i < len(t):
         k = t[i]
-        if k in ("@cs", "@ce", "@ps", "@bs", "@be", "@fs", "@fe", "@dn", "@kw", "@ws", "@er"):
+        if k in ("@bs", "@be", "@fs", "@fe"):
+            # the container handle is queried inside the callback: cif_container_assert_block tells a block from a frame
+            evs.append((k[1:], t[i + 1]))
+            q = t[i + 2] if i + 2 < len(t) else "?"
+            want = "q:~" if t[i + 1] == "~" else ("q:0" if k in ("@bs", "@be") else "q:6")
+            if q != want:
+                QBAD.append("%s %s: cif_container_assert_block on the handle answers %s, expected %s" % (k, t[i + 1], q, want))
+            i += 3
+        elif k in ("@cs", "@ce", "@ps", "@dn", "@kw", "@ws", "@er"):
             evs.append((k[1:], t[i + 1]))
             i += 2
         elif k == "@ls" or (k == "@le" and t[i + 1] != "~"):
@@ -996,7 +1007,10 @@ def first_reached(prog, n):
 
 
 def oracle(req, impl):
+    del QBAD[:]
     sp = split_impl(impl)
+    if QBAD:
+        return "handle passed to a callback: " + QBAD[0]
     if sp is None:
         if impl.startswith("pc ") or impl.startswith("bad-op"):
             return "unreadable observation / executor rejected the request: " + impl[:80]
